@@ -24,6 +24,7 @@ _ROW_FRAME = re.compile(r"required from \S?void row\([^\n]*?\[with T = (float|do
 
 
 WIDE_ROWS = os.path.join(core.VERIF, "calib", "c18_float_wide_rows.txt")
+RANGE_CASES = os.path.join(core.VERIF, "calib", "c18_range_cases.txt")
 
 
 def _target(flavour, disabled):
@@ -107,7 +108,7 @@ def run(tier, seed, flavour="plain", prop="C18"):
     od = core.run_dir(prop, tier)
     binary, disabled, messages = _build(flavour)
     res = core.run_sharded([{"name": "c18_defs", "binary": binary, "nshards": core.NCPU, "out": od,
-                             "args": ["--seed", str(seed), "--tier", tier, "--wide_rows", WIDE_ROWS],
+                             "args": ["--seed", str(seed), "--tier", tier, "--wide_rows", WIDE_ROWS, "--range_cases", RANGE_CASES],
                              "env": core.SAN_ENV if flavour == "san" else None}], timeout=3600)
     V.absorb(res)
     m = core.merge_summaries(res)
@@ -115,6 +116,16 @@ def run(tier, seed, flavour="plain", prop="C18"):
     V.assumptions.append("float rows listed in calib/c18_float_wide_rows.txt (calibrated on the tree they were committed with) are also "
                          "judged over +-100 binades; the other float rows over +-6 decades only, because their intermediate products "
                          "leave the float range although the result does not")
+    V.assumptions.append("calibrated range cases (calib/c18_range_cases.txt): 256 fixed inputs per (row, numeric type) over +-100 / +-800 / "
+                         "+-13000 binades; those that held with margin (error <= half the bound) on the tree the file was committed with "
+                         "must still hold; which inputs those are depends on the library's order of evaluation, which the property does "
+                         "not fix, so the file records it instead of the harness assuming it")
+    replayed = {t: C.get("range_cases_replayed|" + t, 0) for t in TYPES}
+    if min(replayed.values()) == 0:
+        V.inconclusive.append("no calibrated range case was replayed for some numeric type: %s" % replayed)
+    if L.get("range_rows_without_calibration"):
+        V.assumptions.append("rows without a line in the calibration file (added to the table later): %s" %
+                             ", ".join(sorted(L["range_rows_without_calibration"])[:12]))
     table = sorted(L.get("rows_table", []))
     present = sorted(L.get("rows_present", []))
     absent = sorted(L.get("rows_absent", []))
@@ -185,6 +196,7 @@ def run(tier, seed, flavour="plain", prop="C18"):
                 "input classes wide (log-uniform +-20 decades, +-6 for float), moderate (+-3 decades), near-equal "
                 "(common scale times 1 +- 2^-k) and near-one (1 +- 2^-k); all arguments drawn independently",
         "samples": m["samples"],
+        "calibrated_range_cases_replayed": replayed,
         "rows_in_table": n_table, "rows_present": len(present), "rows_absent": absent,
         "rows_not_compiling": not_compiling,
         "bound_K": K,
